@@ -40,26 +40,28 @@ type SParam struct {
 }
 
 type FuncContract struct {
-	Key        string
-	Requires   []*Clause
-	Ensures    []*Clause
-	Modifies   []SExpr
-	ModSrc     []string
-	HasMod     bool
-	Loops      map[int]*LoopSpec
-	Split      *SplitSpec
-	Trusted    bool // body not verified: the contract is an assumption
-	Pure       bool // no heap effect at all
-	Inline     bool
-	Implements []string
-	Assumed    bool // comes from the assumed-contract files (dependency)
-	Params     []string
-	File       string
-	Line       int
-	Spec       *SpecFile
-	NoPanic    bool
-	Fresh      bool // results are freshly allocated objects
-	Reveals    []string
+	Key         string
+	Requires    []*Clause
+	Ensures     []*Clause
+	Modifies    []SExpr
+	ModSrc      []string
+	HasMod      bool
+	Loops       map[int]*LoopSpec
+	Split       *SplitSpec
+	Trusted     bool // body not verified: the contract is an assumption
+	TrustedPost bool // body verified for safety/pre/lock/frame only: the ensures clauses are assumptions
+	Pure        bool // no heap effect at all
+	Inline      bool
+	Implements  []string
+	Assumed     bool // comes from the assumed-contract files (dependency)
+	Params      []string
+	File        string
+	Line        int
+	Spec        *SpecFile
+	NoPanic     bool
+	Fresh       bool // results are freshly allocated objects
+	Reveals     []string
+	Preserves   []SExpr // objects that calls with an unbounded frame (function values, unspecified externals) cannot reach
 }
 
 type SpecFunc struct {
@@ -395,6 +397,17 @@ func (cs *Contracts) LoadFile(path, pkgPath string, fromRepo bool) error {
 			} else if cur != nil {
 				cur.Split = s
 			}
+		case "preserves":
+			if cur == nil {
+				return errf("preserves outside func")
+			}
+			for _, part := range splitTopLevel(rest, ',') {
+				e, err := parseSpecExpr(part)
+				if err != nil {
+					return errf("%v", err)
+				}
+				cur.Preserves = append(cur.Preserves, e)
+			}
 		case "reveal":
 			var names []string
 			for _, n := range strings.Split(rest, ",") {
@@ -431,6 +444,8 @@ func (cs *Contracts) LoadFile(path, pkgPath string, fromRepo bool) error {
 			}
 		case "trusted":
 			cur.Trusted = true
+		case "trusted-ensures":
+			cur.TrustedPost = true
 		case "pure":
 			if rest == "" {
 				cur.Pure = true
@@ -493,12 +508,25 @@ func (cs *Contracts) LoadFile(path, pkgPath string, fromRepo bool) error {
 			}
 			cs.ImmGlobals[sf.expandQualified(parts[0])] = sf
 		case "init-ensures":
+			pkg := sf.PkgPath
+			if !fromRepo {
+				// assumed files name the package: init-ensures <pkgpath>: expr
+				i := strings.Index(rest, ":")
+				if i < 0 {
+					return errf("init-ensures <package>: <expr>")
+				}
+				pkg = strings.TrimSpace(rest[:i])
+				if p, ok := sf.Imports[pkg]; ok {
+					pkg = p
+				}
+				rest = rest[i+1:]
+			}
 			c, err := mkClause("ensures", rest, line)
 			if err != nil {
 				return err
 			}
-			cs.InitEnsures[sf.PkgPath] = append(cs.InitEnsures[sf.PkgPath], c)
-			cs.InitSpec[sf.PkgPath] = sf
+			cs.InitEnsures[pkg] = append(cs.InitEnsures[pkg], c)
+			cs.InitSpec[pkg] = sf
 		case "extern":
 			// extern <pattern>: pure
 			i := strings.LastIndex(rest, ":")
